@@ -1275,6 +1275,20 @@ func (ex *Exec) prepareCall(fr *frame, c *ssa.CallCommon) (Value, []Value) {
 					return ex.ts.Bool(fi.node.isDir)
 				case "Size":
 					return ex.ts.Const(64, uint64(len(fi.node.content)))
+				case "Mode":
+					if fi.node.isDir {
+						return ex.ts.Const(32, 0x80000000|0o755)
+					}
+					return ex.ts.Const(32, 0o644)
+				case "Name":
+					k := fi.node.key
+					st := 0
+					for i, t := range k {
+						if t.IsConst() && t.val == '/' {
+							st = i + 1
+						}
+					}
+					return Str{k[st:]}
 				}
 				panic(unsupported("FileInfo." + mname))
 			}}, nil
